@@ -72,7 +72,7 @@ def run(ctx: Ctx):
             out = rng.sample(out, 120 if quick else 500)
         return out
     c01.run_pool(ctx, rng, quick, pool, "c17", with_end=True, nwalk=25 if quick else 60, enum_budget=120 if quick else 600, cap=120 if quick else 400, extra_inputs=prefixes)
-    ctx.floor("runs_checked", 4000 if quick else 80000)
+    ctx.floor("runs_checked", 2500 if quick else 60000)
     ctx.floor("programs_with_end_pattern", 8)
     ctx.floor("terminal_DONE", 300)
     ctx.rule = ("case = (EOF-enabled program with `end` in match / concatenation / case / wait positions and inside try blocks, input): the input "
